@@ -281,6 +281,22 @@ def run_case(case, ctx):
                 _state['diff'] = None
                 ctx.count('configuration_reached_through_setters')
                 obj(x_call)
+            elif isinstance(x_call, np.ndarray) and x_call.dtype == np.float64 and case['fseed'] % 5 == 2:
+                # the same object was called before with this very array when it held a far larger point: the caller updates
+                # the array in place between the calls (the steps of the old point are of no use at the new one)
+                obj = getattr(nd, cls)(rec, **kw)
+                now = x_call.copy()
+                x_call[...] = now * 1.0e4 + 3.0
+                try:
+                    obj(x_call)
+                except Exception:
+                    pass
+                x_call[...] = now
+                del rec.calls[:]
+                del _steps_seen[:]
+                _state['diff'] = None
+                ctx.count('same_array_updated_in_place_between_calls')
+                obj(x_call)
             else:
                 getattr(nd, cls)(rec, **kw)(x_call)
     except ValueError as exc:
